@@ -42,6 +42,11 @@ func writeVocab(repo, verif string) error {
 			snap[name] = e
 		}
 	}
+	var all []an.VocabEntry
+	for _, f := range p.Funcs() {
+		all = append(all, an.VocabEntry{N: f.Name})
+	}
+	snap[an.FunctionsKey] = all
 	// deterministic output
 	names := make([]string, 0, len(snap))
 	for n := range snap {
